@@ -23,7 +23,8 @@ contents read back through an independent raw sqlite3 connection):
                   graphs whose flush *uses* the returned keys: joined-table inheritance
                   (child row keyed by the parent's new id) and one-to-many children (FK =
                   the parent's new id) - a mis-assigned key shows as a payload mismatch
-                  across the join
+                  across the join; the one-to-many parent comes in mapper variants
+                  {plain, insert sentinel, version_id_col, eager server default} x each other
   x extra columns python callable default, SQL-expression default containing a bound
                   parameter, server default; optionally returned.
 
@@ -47,6 +48,15 @@ way those servers are documented to behave for the statement forms SQLAlchemy re
 are judged.  This exercises the *implicit* (autoincrement) sentinel sort, which SQLite
 never takes.
 
+Per-row bound upsert (``ups_rowbind``): executemany ``ON CONFLICT DO UPDATE SET col =
+bindparam()`` with a different value per parameter set over a mix of conflicting and new rows,
+with / without RETURNING, on the stock engines and on engines whose dialect has
+``use_insertmanyvalues_wo_returning`` switched on (35% of all cases run on such an engine);
+at the DBAPI boundary each parameter set must travel with its own SET value, and every
+conflicting row must end up with the value of its own parameter set.  The same delivery rule
+is judged on recorded PostgreSQL / MySQL / MariaDB streams with the attribute stock, forced
+on and forced off.
+
 Guards: an empty parameter list is not an executemany (documented: same as no
 parameters) and is not generated.  Whether a statement is batched or downgraded to
 row-at-a-time is followed, not judged.  Conflicting upsert rows belong to C56.
@@ -67,14 +77,16 @@ META = {
     "soft_s": {"quick": 50, "thorough": 800},
     "exhaustive": {"quick": False, "thorough": False},
     "require": ["sorted_batches_permuted", "batches_permuted", "rows_checked_in_order", "fake_sorted_batches_permuted",
-                "orm_objects_checked", "orm_graph_batches_permuted"],
+                "orm_objects_checked", "orm_graph_batches_permuted", "upsert_rowbind_rows_wo_returning",
+                "fake_upsert_deliveries"],
     "assumptions": ["a backend may deliver RETURNING rows of one statement in any order",
                     "fabricated PG/MariaDB/MSSQL rows follow the ordering guarantees SQLAlchemy documents relying on"],
 }
 
 STYLES = ("autoinc", "uuid_pk", "expl_sentinel", "col_sentinel", "composite", "client_int_pk", "str_pk", "nopk",
           "expl_sentinel_min")
-FORMS = ("ret", "ret", "ret", "retdef", "plain", "ups_nothing", "ups_excluded", "ups_bound", "orm_add", "orm_bulk")
+FORMS = ("ret", "ret", "ret", "retdef", "plain", "ups_nothing", "ups_excluded", "ups_bound", "orm_add", "orm_bulk",
+         "ups_rowbind")
 
 
 class Tok:
@@ -208,6 +220,7 @@ def run(ctx):
     # a first slice of part B runs before the main loop so that a loaded machine (soft deadline
     # reached inside the loop) cannot starve its deciding counter
     fake_part(ctx, sa, uuid, first=True)
+    fake_upsert_part(ctx, sa, first=True)
     reg = orm.registry()
     classes = {}
     for style, t in T.items():
@@ -229,15 +242,22 @@ def run(ctx):
         md.create_all(engines[ps])
     engine_level = {}
 
-    def engine_for(ps, page, how):
-        if how != "engine":
+    def engine_for(ps, page, how, wo):
+        """wo: the dialect batches executemany INSERTs also when there is no RETURNING
+        (``use_insertmanyvalues_wo_returning`` - stock for psycopg2 / mssql, an ordinary dialect
+        attribute that SQLAlchemy's own test suite switches on for SQLite)."""
+        key = (ps, page if how == "engine" else None, wo)
+        if key == (ps, None, False):
             return engines[ps]
-        key = (ps, page)
         if key not in engine_level:
-            if len(engine_level) > 24:
+            if len(engine_level) > 32:
                 k0 = next(iter(engine_level))
                 engine_level.pop(k0).dispose()
-            engine_level[key] = spy_engine(spy, paths[ps], ps, insertmanyvalues_page_size=page)
+            kw = {"insertmanyvalues_page_size": page} if how == "engine" else {}
+            e = spy_engine(spy, paths[ps], ps, **kw)
+            if wo:
+                e.dialect.use_insertmanyvalues_wo_returning = True
+            engine_level[key] = e
         return engine_level[key]
 
     try:
@@ -252,8 +272,14 @@ def run(ctx):
             sort = rng.random() < 0.7
             n, page = choose_n_page(rng, N)
             page_how = rng.choice(["stmt", "stmt", "conn", "engine"])
-            one_case(ctx, sa, orm, sqlite_dialect, spy, perm, engine_for(ps, page, page_how), paths[ps], T[style],
-                     classes.get(style), toks, style, ps, form, sort, n, page, page_how, k, rng, warnings)
+            wo = rng.random() < 0.35
+            if form == "ups_rowbind":
+                rowbind_case(ctx, sa, sqlite_dialect, spy, perm, engine_for(ps, page, page_how, wo), paths[ps], T[style],
+                             style, ps, sort, n, page, page_how, wo, k, rng, warnings)
+            else:
+                one_case(ctx, sa, orm, sqlite_dialect, spy, perm, engine_for(ps, page, page_how, wo), paths[ps],
+                         T[style], classes.get(style), toks, style, ps, form, sort, n, page, page_how, k, rng,
+                         warnings, wo)
             if k % 6 == 2:
                 graph_case(ctx, sa, orm, perm, engines[ps], paths[ps], graph, ps, n, page, k, rng, warnings)
     finally:
@@ -263,6 +289,7 @@ def run(ctx):
         reg.dispose()
     ctx.count("batches_permuted", perm.permuted)
     fake_part(ctx, sa, uuid, first=False)
+    fake_upsert_part(ctx, sa, first=False)
 
 
 def build_graph(sa, orm, md, reg):
@@ -287,7 +314,35 @@ def build_graph(sa, orm, md, reg):
     reg.map_imperatively(CJ, cj, inherits=PJ, polymorphic_identity="c")
     reg.map_imperatively(PR, pr, properties={"children": orm.relationship(CR, back_populates="parent")})
     reg.map_imperatively(CR, cr, properties={"parent": orm.relationship(PR, back_populates="children")})
-    return {"PJ": PJ, "CJ": CJ, "PR": PR, "CR": CR, "tables": (pj, cj, pr, cr)}
+    # the same one-to-many shape under other mapper configurations of the parent: with / without
+    # an insert sentinel, with a version_id_col (Python counter), with an eagerly fetched server
+    # default.  Server generated primary key in every variant.
+    variants = []
+    tables = [pj, cj, pr, cr]
+    for name, sentinel, versioned, server_default in (
+        ("n0", False, False, False), ("v0", False, True, False), ("v1", True, True, False),
+        ("v2", False, True, True), ("d0", False, False, True), ("d1", True, False, True),
+    ):
+        cols = [sa.Column("id", sa.Integer, primary_key=True), sa.Column("p", sa.String)]
+        if versioned:
+            cols.append(sa.Column("version_id", sa.Integer, nullable=False))
+        if server_default:
+            cols.append(sa.Column("sd", sa.String, server_default="sd"))
+        if sentinel:
+            cols.append(insert_sentinel("sent"))
+        pt = sa.Table(f"g_{name}", md, *cols)
+        ct = sa.Table(f"g_{name}c", md, sa.Column("id", sa.Integer, primary_key=True),
+                      sa.Column("parent_id", sa.ForeignKey(f"g_{name}.id")), sa.Column("cp", sa.String))
+        P = type(f"P_{name}", (object,), {})
+        C = type(f"C_{name}", (object,), {})
+        kw = {"version_id_col": pt.c.version_id} if versioned else {}
+        if server_default:
+            kw["eager_defaults"] = True
+        reg.map_imperatively(P, pt, properties={"children": orm.relationship(C, back_populates="parent")}, **kw)
+        reg.map_imperatively(C, ct, properties={"parent": orm.relationship(P, back_populates="children")})
+        variants.append((name, P, C, pt, ct))
+        tables += [pt, ct]
+    return {"PJ": PJ, "CJ": CJ, "PR": PR, "CR": CR, "tables": tuple(tables), "variants": variants}
 
 
 def graph_case(ctx, sa, orm, perm, eng, path, graph, ps, n, page, k, rng, warnings):
@@ -320,11 +375,47 @@ def graph_case(ctx, sa, orm, perm, eng, path, graph, ps, n, page, k, rng, warnin
                         par.children.append(ch)
                         nchild += 1
                     objs.append(par)
-                s.add_all(objs)
+                vname, P, C, pt, ct = graph["variants"][(k // 6) % len(graph["variants"])]
+                desc["variant"] = vname
+                vobjs = []
+                vchild = 0
+                for i in range(n):
+                    par = P()
+                    par.p = f"{prefix}{vname}{i}"
+                    for j in range(rng.randint(0, 2)):
+                        ch = C()
+                        ch.cp = f"{prefix}{vname}{i}/{j}"
+                        par.children.append(ch)
+                        vchild += 1
+                    vobjs.append(par)
+                s.add_all(objs + vobjs)
+                s.flush()
+                vseen = [(o.p, o.id) for o in vobjs]   # identity the session believes in
                 s.commit()
     except Exception as e:
         ctx.violation(f"insert-raised-{type(e).__name__}", f"{desc} raised {e!r}"[:600], desc)
         return
+    raw = sqlite3.connect(path, timeout=2.0)
+    try:
+        vrows = dict(raw.execute(f"SELECT p, id FROM {pt.name}").fetchall())
+        vrel = raw.execute(f"SELECT {pt.name}.p, {ct.name}.cp FROM {ct.name} JOIN {pt.name} "
+                           f"ON {pt.name}.id = {ct.name}.parent_id").fetchall()
+    finally:
+        raw.close()
+    if sorted(vrows) != sorted(p for p, _ in vseen) or len(vrel) != vchild:
+        ctx.violation("rows-lost-or-duplicated", f"{desc}: {len(vrows)} parent rows / {len(vrel)} joined children for "
+                      f"{n} / {vchild} objects", desc)
+    else:
+        ctx.count("orm_objects_checked", len(vseen) + len(vrel))
+        ctx.count("rows_checked_in_order", len(vseen) + len(vrel))
+        wrong = {p: (i, vrows[p]) for p, i in vseen if vrows[p] != i}
+        badrel = [(p, cp) for p, cp in vrel if not cp.startswith(p + "/")]
+        if wrong or badrel:
+            ctx.violation("orm-flushed-object-holds-other-rows-key",
+                          f"{desc}: {{payload: (object.id, row.id)}} = {dict(list(wrong.items())[:4])}; children under the "
+                          f"wrong parent {badrel[:3]}; permuted batches={perm.case_permuted}",
+                          {"desc": desc, "wrong": list(wrong.items())[:10], "badrel": badrel[:10]})
+    ctx.seen("orm_graph_variant", vname)
     raw = sqlite3.connect(path, timeout=2.0)
     try:
         joined = raw.execute("SELECT g_pj.p, g_cj.cp FROM g_pj JOIN g_cj ON g_pj.id = g_cj.id").fetchall()
@@ -364,8 +455,98 @@ def make_params(style, n, prefix, rng, supply_dpy):
     return params
 
 
+def rowbind_case(ctx, sa, sqlite_dialect, spy, perm, eng, path, t, style, ps, sort, n, page, page_how, wo, k, rng,
+                 warnings):
+    """executemany upsert whose DO UPDATE SET carries a bound parameter with a different value
+    in every parameter set, over a mix of conflicting and new rows, with / without RETURNING:
+    every parameter set is applied exactly once - a conflicting row receives the SET value of
+    its *own* parameter set, a new row is inserted."""
+    import sqlite3
+
+    prefix = f"b{ctx.shard}.{k}:"
+    raw = sqlite3.connect(path, timeout=2.0)
+    raw.execute(f"DELETE FROM {t.name}")
+    raw.commit()
+    raw.close()
+    first = make_params(style, n, prefix, rng, False)
+    n_new = rng.randint(0, 3)
+    second = make_params(style, n + n_new, prefix, rng, False)   # payloads 0..n-1 conflict, the rest are new
+    for d in second:
+        for kk in ("id", "a"):
+            if kk in d:
+                d[kk] += 100000        # fresh primary keys: the only violated constraint is UNIQUE(p)
+        d["bp"] = "bp-" + d["p"]
+    rng.shuffle(second)
+    ret = rng.choice(["none", "none", "returning"])
+    desc = {"style": style, "ps": ps, "form": "ups_rowbind", "sort": sort, "n": n, "new": n_new, "page": page,
+            "how": page_how, "wo_returning": wo, "ret": ret}
+    opts = {"insertmanyvalues_page_size": page} if page_how in ("stmt", "conn") else {}
+    stmt = sqlite_dialect.insert(t)
+    stmt = stmt.on_conflict_do_update(index_elements=[t.c.p], set_={"d_srv": sa.bindparam("bp")})
+    if ret == "returning":
+        stmt = stmt.returning(t.c.p, t.c.d_srv, sort_by_parameter_order=sort)
+    perm.reset_case()
+    returned = None
+    try:
+        with warnings.catch_warnings():
+            warnings.simplefilter("ignore")
+            with eng.begin() as c:
+                c.execute(sa.insert(t), first, execution_options=opts)
+                mark = spy.mark()
+                res = c.execute(stmt, second, execution_options=opts)
+                if ret == "returning":
+                    returned = [tuple(r) for r in res.all()]
+    except Exception as e:
+        ctx.violation(f"insert-raised-{type(e).__name__}", f"{desc} raised {e!r}"[:600], desc)
+        ctx.case(desc, nontrivial=False)
+        return
+    # every parameter set reaches the DBAPI exactly once, together with its own SET value
+    seen = {}
+    for e in spy.since(mark, ("execute", "executemany")):
+        if not (e.sql or "").lstrip().startswith("INSERT"):
+            continue
+        deliveries = e.params if e.kind == "executemany" else [e.params]
+        for dl in deliveries:
+            ps_in = payloads_in(dl, prefix)
+            bps = set(payloads_in(dl, "bp-" + prefix))
+            for p in ps_in:
+                seen[p] = seen.get(p, 0) + 1
+                if "bp-" + p not in bps:
+                    ctx.violation("upsert-set-value-not-delivered-with-its-parameter-set",
+                                  f"{desc}: payload {p} was handed to the driver in a statement that carries the SET "
+                                  f"values {sorted(bps)[:3]} only", desc)
+    want = [d["p"] for d in second]
+    if sorted(seen) != sorted(want) or any(v != 1 for v in seen.values()):
+        ctx.violation("batch-accounting", f"{desc}: parameter sets delivered {sorted(seen.items())[:6]}", desc)
+    stored = {r["p"]: r for r in read_table(sa, path, t)}
+    if sorted(stored) != sorted(want):
+        ctx.violation("rows-lost-or-duplicated", f"{desc}: table holds {len(stored)} rows for {len(want)} payloads", desc)
+        ctx.case(desc, nontrivial=True)
+        return
+    old = {d["p"] for d in first}
+    fresh_value = "srv" if t.c.d_srv.server_default is not None else None
+    exp = {p: ("bp-" + p if p in old else fresh_value) for p in want}
+    wrong = {p: (stored[p]["d_srv"], exp[p]) for p in want if stored[p]["d_srv"] != exp[p]}
+    ctx.count("upsert_rowbind_rows", len(want))
+    if wo:
+        ctx.count("upsert_rowbind_rows_wo_returning", len(want))
+    if wrong:
+        ctx.violation("upsert-set-value-from-other-parameter-set",
+                      f"{desc}: {{payload: (stored, expected)}} = {dict(list(wrong.items())[:4])}",
+                      {"desc": desc, "wrong": list(wrong.items())[:10]})
+    elif returned is not None:
+        if sorted(returned) != sorted((p, exp[p]) for p in want):
+            ctx.violation("returning-multiset", f"{desc}: returned {returned[:5]}", desc)
+        elif sort:
+            ctx.count("rows_checked_in_order", len(returned))
+            if [r[0] for r in returned] != want:
+                ctx.violation("returning-row-order", f"{desc}: returned {[r[0] for r in returned][:8]} for {want[:8]}", desc)
+    ctx.seen("style_form_sort", f"{style}/ups_rowbind/{ret}/{wo}")
+    ctx.case(desc, nontrivial=n >= 2)
+
+
 def one_case(ctx, sa, orm, sqlite_dialect, spy, perm, eng, path, t, cls, toks, style, ps, form, sort, n, page,
-             page_how, k, rng, warnings):
+             page_how, k, rng, warnings, wo=False):
     prefix = f"c{ctx.shard}.{k}:"
     supply_dpy = rng.random() < 0.3
     params = make_params(style, n, prefix, rng, supply_dpy)
@@ -376,7 +557,9 @@ def one_case(ctx, sa, orm, sqlite_dialect, spy, perm, eng, path, t, cls, toks, s
     if rng.random() < 0.3:
         rng.shuffle(retnames)
     desc = {"style": style, "ps": ps, "form": form, "sort": sort, "n": n, "page": page, "how": page_how,
-            "ret": retnames, "dpy": supply_dpy}
+            "ret": retnames, "dpy": supply_dpy, "wo_returning": wo}
+    if wo:
+        ctx.count("cases_on_wo_returning_dialect")
     opts = {"insertmanyvalues_page_size": page} if page_how == "stmt" else {}
 
     # empty the table through the raw driver (not through the code under test)
@@ -736,3 +919,79 @@ def fake_part(ctx, sa, uuid, first):
         ctx.seen("fake_dialect_style", f"{desc['fake']}/{style}")
         ctx.count("fake_statements", len(fab.batches))
         ctx.case(desc, nontrivial=n >= 2)
+
+
+FAKE_UPSERT = (
+    ("postgresql+psycopg2://u:p@h/db", "pg", None),      # stock: use_insertmanyvalues_wo_returning = True
+    ("postgresql+psycopg2://u:p@h/db", "pg", False),
+    ("postgresql+pg8000://u:p@h/db", "pg", True),
+    ("postgresql+psycopg://u:p@h/db", "pg", None),
+    ("mysql+pymysql://u:p@h/db", "my", True),
+    ("mariadb+mariadbconnector://u:p@h/db", "my", None),
+)
+
+
+def fake_upsert_part(ctx, sa, first):
+    """executemany upsert with a per-row bound SET value and no RETURNING at the recording
+    fake DBAPI, with the dialect's stock ``use_insertmanyvalues_wo_returning`` and with the
+    attribute forced on / off: every parameter set must reach the driver exactly once, in a
+    statement (or executemany entry) that also carries its own SET value."""
+    import warnings
+
+    from sqlalchemy.dialects import mysql as my
+    from sqlalchemy.dialects import postgresql as pg
+
+    from vf.mon.fake_dbapi import recording_engine
+
+    rng = ctx.rng
+    ncases = ctx.pick({"quick": 24, "thorough": 400})
+    head = 6
+    for k in (range(head) if first else range(head, ncases)):
+        if not first and not ctx.budget_ok():
+            break
+        url, fam, force = FAKE_UPSERT[(k + ctx.shard) % len(FAKE_UPSERT)]
+        md = sa.MetaData()
+        t = sa.Table("t", md, sa.Column("id", sa.Integer, primary_key=True, autoincrement=False),
+                     sa.Column("p", sa.String(80), unique=True), sa.Column("v", sa.String(80)))
+        n = rng.randint(2, 9)
+        page = rng.choice([1, 2, 3, 1000])
+        prefix = f"u{ctx.shard}.{k}:"
+        params = [{"id": 10 + i, "p": f"{prefix}{i}", "v": f"v{i}", "bp": f"bp-{prefix}{i}"} for i in range(n)]
+        if fam == "pg":
+            stmt = pg.insert(t).on_conflict_do_update(index_elements=[t.c.p], set_={"v": sa.bindparam("bp")})
+        else:
+            stmt = my.insert(t).on_duplicate_key_update(v=sa.bindparam("bp"))
+        eng, fake = recording_engine(url)
+        if force is not None:
+            eng.dialect.use_insertmanyvalues_wo_returning = force
+        desc = {"fake": url.split(":")[0], "wo_returning": eng.dialect.use_insertmanyvalues_wo_returning, "n": n, "page": page}
+        try:
+            with warnings.catch_warnings():
+                warnings.simplefilter("ignore")
+                with eng.connect() as c:
+                    c.execute(stmt, params, execution_options={"insertmanyvalues_page_size": page})
+        except Exception as e:
+            ctx.violation(f"fake-insert-raised-{type(e).__name__}", f"{desc} raised {e!r}"[:500], desc)
+            eng.dispose()
+            continue
+        eng.dispose()
+        seen = {}
+        bad = None
+        for e in fake.log:
+            if e.kind not in ("execute", "executemany") or not (e.sql or "").lstrip().startswith("INSERT"):
+                continue
+            for dl in (e.params if e.kind == "executemany" else [e.params]):
+                ps_in = payloads_in(dl, prefix)
+                bps = set(payloads_in(dl, "bp-" + prefix))
+                ctx.count("fake_upsert_deliveries")
+                for p in ps_in:
+                    seen[p] = seen.get(p, 0) + 1
+                    if "bp-" + p not in bps and bad is None:
+                        bad = (p, sorted(bps)[:3], e.sql[:200])
+        if bad:
+            ctx.violation("fake-upsert-set-value-not-delivered-with-its-parameter-set",
+                          f"{desc}: parameter set {bad[0]} travels in a statement whose SET values are {bad[1]}: {bad[2]}", desc)
+        if sorted(seen) != sorted(d["p"] for d in params) or any(v != 1 for v in seen.values()):
+            ctx.violation("fake-batch-accounting", f"{desc}: deliveries {sorted(seen.items())[:6]}", desc)
+        ctx.seen("fake_upsert_dialect", f"{desc['fake']}/{desc['wo_returning']}")
+        ctx.case(desc, nontrivial=True)
